@@ -5,15 +5,12 @@
 use mila::BinArchive;
 use props::arch::{self, Call};
 use props::binfam;
+use props::c02judge::{self, sig};
 use rayon::prelude::*;
 use serde_json::{json, Value};
 use vcore::driver::{BothBuilds, Ctx, Outcome, PropDef, Tier, Violation};
 use vcore::ref_bin::{self, Content, End};
 use vcore::{util, Tally};
-
-fn sig(oracle: &str, c: &Content) -> String {
-    format!("{}:{:?}", oracle, c.endian)
-}
 
 /// all orders of `calls` that keep the relative order of labels on one address
 fn call_orders(calls: &[Call], max_calls: usize) -> Vec<Vec<Call>> {
@@ -59,53 +56,7 @@ fn judge(c: &Content, t: &mut Tally, max_calls: usize, r_canon: usize, r_perm: u
         }
     }
     t.class_n("call-orders", orders.len() as u64);
-    if images.len() != 1 {
-        return Some((
-            sig("nondeterministic", c),
-            format!("{} distinct images from {} call orders × fresh instances of equal content, e.g. {} vs {}", images.len(), orders.len(), util::hex(&images[0]), util::hex(&images[1])),
-        ));
-    }
-    let img = &images[0];
-    if ref_bin::be_order_is_determined(c) {
-        let want = ref_bin::write_canonical(c);
-        if *img != want {
-            return Some((sig("not-canonical", c), format!("image {} differs from the canonical image {}", util::hex(img), util::hex(&want))));
-        }
-        t.class("canonical-image-equal");
-        // parse → serialize reproduces a canonical file byte for byte
-        t.calls += 2;
-        match util::catch(|| BinArchive::from_bytes(&want, arch::endian(c.endian)).and_then(|a| a.serialize()).map_err(|e| e.to_string())) {
-            Err(p) => return Some((format!("panic@{}", p.location), format!("parse/re-serialize panicked: {}", p.message))),
-            Ok(Err(e)) => return Some((sig("reserialize-err", c), format!("parse → serialize of a canonical file failed: {}", e))),
-            Ok(Ok(again)) => {
-                if again != want {
-                    return Some((sig("not-byte-stable", c), format!("parse → serialize of the canonical file gives {} instead of {}", util::hex(&again), util::hex(&want))));
-                }
-            }
-        }
-    } else {
-        // big-endian with tied / multi-label names: determinism (checked above), structural
-        // correctness by the reference parser, and name order where it is defined
-        t.class("be-tie-or-multilabel");
-        match ref_bin::parse(img, c.endian) {
-            Err(e) => return Some((sig("image-malformed", c), format!("reference parser rejects the image: {}", e))),
-            Ok(p) => {
-                if p.content.strings != c.strings || p.content.pointers != c.pointers || p.content.labels != c.labels {
-                    return Some((sig("image-content", c), "reference parser reads different content from the image".into()));
-                }
-                if c.labels.values().all(|v| v.len() == 1) {
-                    let names: Vec<&String> = p.label_table.iter().map(|l| &l.1).collect();
-                    if names.windows(2).any(|w| w[0] > w[1]) {
-                        return Some((sig("be-not-by-name", c), format!("big-endian label table is not ordered by name: {:?}", names)));
-                    }
-                }
-                if p.pointer_table != ref_bin::canonical_pointer_table(c) {
-                    return Some((sig("pointer-table-order", c), format!("pointer table {:?} is not in canonical order {:?}", p.pointer_table, ref_bin::canonical_pointer_table(c))));
-                }
-            }
-        }
-    }
-    None
+    c02judge::judge_images(c, &images, &format!("{} call orders × fresh instances", orders.len()), t)
 }
 
 /// extra contents with many tied big-endian names (t = 8) — the hash-order sensitive case
